@@ -1,13 +1,14 @@
 SPECIFICATION MCSpec
 CONSTANTS
-  Groups = {"g1","g2"}
-  Names = {"s1","s2"}
-  Dev = {}
+  Groups = {"g1"}
+  Names = {"s1"}
+  Dev = {"MemRollbackStealsNostrId","MemOffsetOverflows"}
+  KnownFinding <- Silent
   Cap = 0
   MaxLimit = 10000
   DefLimit = 1000
-  Acts = {"groups","relays","snaps"}
-  Nids = {"n1","n2"}
+  Acts = {"groups","gd","props","leaves","snaps"}
+  Nids = {}
   Epochs = {1}
   Ptrs = {}
   Relays = {"r1"}
@@ -26,9 +27,9 @@ CONSTANTS
   WelcomeStates = {"pending"}
   GdTypes = {"tree"}
   GdVals = {"t1"}
-  LeafVals = {"a"}
-  LeafStart = 0
-  MaxLeaf = 0
+  LeafVals = {"a","b"}
+  LeafStart = 8
+  MaxLeaf = 13
   PropRefs = {"r"}
   GlobKeys = {"k1"}
   Ats = {1}
@@ -38,6 +39,7 @@ CONSTANTS
   Subs = {"abc"}
 VIEW MCView
 INVARIANT TypeInv
-INVARIANT InvC10Plain
-PROPERTY PropC09Plain
+INVARIANT InvC10
+INVARIANT InvC18
+PROPERTY PropC09
 CHECK_DEADLOCK FALSE
